@@ -23,7 +23,7 @@ from ..drivers import scanmodel as sm, backends as be, watchdog
 
 # rows of FocusTable in spec/Scanner.tla used for corpus (a): portable alphabets (no TAB, no non-printables, no surrogate escapes)
 FOCUSES = ['pstruct', 'pstruct8', 'pblock', 'pflow', 'pbreaks', 'pdocs', 'pdquote', 'psquote', 'pescape', 'pyamldir', 'ptagdoc', 'ptag', 'pliteral',
-           'pfolded', 'pseqlit', 'pmapblock', 'panchors', 'pindic', 'pcont']
+           'pfolded', 'pseqlit', 'pmapblock', 'panchors', 'pindic', 'pcont', 'ptagdflt', 'pindentless']
 LIMIT = 240.0
 
 
@@ -207,12 +207,17 @@ def dumper_texts(yaml, rnd, n):
     return out
 
 
+def docprint_structure(rnd):
+    from ..drivers import docprint
+    return docprint.random_structure(rnd)
+
+
 def event_texts(yaml, rnd, kindseqs, n):
     """event streams with the structures Parser.tla generates, through both emitters"""
     from yaml import events as E
     out = []
     for j in range(n):
-        kinds = rnd.choice(kindseqs)
+        kinds = rnd.choice(kindseqs) if j % 2 else docprint_structure(rnd)
         evs, anchors = [], []
         for k in kinds:
             anchor = None
@@ -409,6 +414,9 @@ def main(tier, replay=None):
     for ks in picks:
         for _ in range(per):
             gtexts.append((docprint.render(list(ks), rnd), 'grammar'))
+    # the same printer over seeded random structures that are deeper than the ones TLC enumerates (depth <= 3)
+    for _ in range(700 if quick else 12000):
+        gtexts.append((docprint.render(docprint.random_structure(rnd), rnd), 'grammar-deep'))
     for f in sorted(glob.glob(os.path.join(REPO, 'tests/legacy_tests/data/*'))):
         try:
             t = open(f, 'rb').read().decode('utf-8')
